@@ -73,7 +73,7 @@ def minimise(cfg, lines, prop, fail_step):
     return lines
 
 
-def known_match(known, prop, cfg, op_line, msg):
+def known_match(known, prop, cfg, op_line, msg, ctx=None):
     for k in known:
         if k.get("kind") != "finding" or prop not in k.get("properties", [k.get("property")]):
             continue
@@ -86,6 +86,15 @@ def known_match(known, prop, cfg, op_line, msg):
             continue
         if "cat_not" in m and cfg.cat in m["cat_not"]:
             continue
+        if m.get("pos_lt_size"):
+            # op line: <op> <container> <pos> ...; the finding only covers insertion strictly before end()
+            toks = op_line.lstrip("!0123456789 ").split(" ")
+            try:
+                pos = int(toks[2])
+            except (IndexError, ValueError):
+                continue
+            if ctx is None or ctx.get("size") is None or not pos < ctx["size"]:
+                continue
         return k
     return None
 
@@ -240,7 +249,14 @@ def run_faults(tier, report, configs=None):
             if not fs:
                 continue
             i, p, msg = fs[0]
-            km = known_match(known, "C09", cfg, op, msg)
+            size_before = None
+            try:
+                inj_i = [j for j, s0 in enumerate(h.steps) if s0.op.startswith("!")][0]
+                a_idx = int(op.split(" ")[1])
+                size_before = int(h.steps[inj_i - 1].conts[a_idx].split(";")[0]) if inj_i > 0 else 0
+            except (IndexError, ValueError):
+                pass
+            km = known_match(known, "C09", cfg, op, msg, {"size": size_before})
             if km is not None:
                 report.known_finding("%s: %s" % (km["site"], km["failure"]))
                 continue
